@@ -3,11 +3,14 @@ package l2
 import (
 	"fmt"
 	"math/rand"
+	"os"
 	"sync"
 	"sync/atomic"
 	"time"
 
 	"github.com/btcsuite/btcd/wire/v2"
+	"github.com/lightninglabs/neutrino"
+	"github.com/lightninglabs/neutrino/banman"
 
 	"verif/internal/chaingen"
 	"verif/internal/netsim"
@@ -258,6 +261,9 @@ func (b *Built) StartBackground() {
 			}
 		}()
 	}
+	if os.Getenv("VERIF_HAMMER") != "" {
+		b.startHammer()
+	}
 	b.bgWg.Add(1)
 	go func() {
 		defer b.bgWg.Done()
@@ -275,6 +281,73 @@ func (b *Built) StartBackground() {
 			time.Sleep(3 * time.Millisecond)
 		}
 	}()
+}
+
+// startHammer starts goroutines that call every public getter of the client
+// concurrently with whatever the scenario does (used under the race detector).
+func (b *Built) startHammer() {
+	svc := b.W.Svc
+	loops := []func(){
+		func() { _, _ = svc.BestBlock() },
+		func() { _ = svc.IsCurrent() },
+		func() {
+			if bs, err := svc.BestBlock(); err == nil {
+				_, _ = svc.GetBlockHash(int64(bs.Height))
+				_, _ = svc.GetBlockHeader(&bs.Hash)
+				_, _ = svc.GetBlockHeight(&bs.Hash)
+			}
+		},
+		func() { _ = svc.Peers(); _ = svc.ConnectedCount(); _, _ = svc.NetTotals() },
+		func() { _ = svc.IsBanned("10.2.0.250:18444"); _ = svc.ChainParams() },
+		func() {
+			_ = svc.BanPeer("10.2.0.251:18444", banman.ExceededBanThreshold)
+			_ = svc.UnbanPeer("10.2.0.251:18444", false)
+		},
+		func() {
+			if bs, err := svc.BestBlock(); err == nil && bs.Height > 0 {
+				_, _ = svc.GetCFilter(bs.Hash, wire.GCSFilterRegular)
+				_, _ = svc.RegFilterHeaders.FetchHeaderByHeight(uint32(bs.Height))
+			}
+		},
+		func() {
+			if bs, err := svc.BestBlock(); err == nil && bs.Height > 1 {
+				if h, err := svc.GetBlockHash(int64(bs.Height - 1)); err == nil {
+					_, _ = svc.GetBlock(*h)
+				}
+			}
+		},
+		func() {
+			src := &neutrino.RescanChainSource{ChainService: svc}
+			if sub, err := src.Subscribe(0); err == nil {
+				t := time.After(30 * time.Millisecond)
+			drain:
+				for {
+					select {
+					case <-sub.Notifications:
+					case <-t:
+						break drain
+					}
+				}
+				sub.Cancel()
+			}
+		},
+	}
+	for _, f := range loops {
+		f := f
+		b.bgWg.Add(1)
+		go func() {
+			defer b.bgWg.Done()
+			for {
+				select {
+				case <-b.stopBg:
+					return
+				default:
+				}
+				f()
+				time.Sleep(2 * time.Millisecond)
+			}
+		}()
+	}
 }
 
 // StopBackground stops sampler and flappers.
